@@ -57,11 +57,11 @@ func refDecodePayload(ref refMode, payload []byte, limit int) ([]byte, error) {
 
 type wtSend struct{ s *memStream }
 
-func (w wtSend) Write(p []byte) (int, error)             { return w.s.Write(p) }
-func (w wtSend) Close() error                            { return nil }
-func (w wtSend) StreamID() quic.StreamID                 { return 2 }
+func (w wtSend) Write(p []byte) (int, error)            { return w.s.Write(p) }
+func (w wtSend) Close() error                           { return nil }
+func (w wtSend) StreamID() quic.StreamID                { return 2 }
 func (w wtSend) CancelWrite(webtransgo.StreamErrorCode) {}
-func (w wtSend) SetWriteDeadline(time.Time) error        { return nil }
+func (w wtSend) SetWriteDeadline(time.Time) error       { return nil }
 
 // fragReader returns the fragments one Read at a time and io.EOF afterwards (never blocks).
 type fragReader struct{ frags [][]byte }
@@ -210,18 +210,38 @@ func safeWritePhase(c Case) (w written) {
 
 // ---------- the stream case ----------
 
-func readTimeout(f func() ([]byte, error)) (b []byte, err error, hung bool) {
+// readTimeout runs a blocking Read. starved (may be nil) is closed by the fake connection when the
+// library's reader goroutine waits for input that will never come: everything it could decode has
+// been queued for Read before that, so a Read that has not returned a short grace period later never will.
+func readTimeout(f func() ([]byte, error), starved <-chan struct{}) (b []byte, err error, hung bool) {
 	type res struct {
 		b   []byte
 		err error
 	}
 	ch := make(chan res, 1)
-	go func() { b, err := f(); ch <- res{b, err} }()
-	t := time.NewTimer(10 * time.Second)
+	go func() {
+		defer func() {
+			if r := recover(); r != nil {
+				ch <- res{nil, fmt.Errorf("panic in Read: %v", r)}
+			}
+		}()
+		b, err := f()
+		ch <- res{b, err}
+	}()
+	t := time.NewTimer(15 * time.Second)
 	defer t.Stop()
 	select {
 	case r := <-ch:
 		return r.b, r.err, false
+	case <-starved:
+		g := time.NewTimer(2 * time.Second)
+		defer g.Stop()
+		select {
+		case r := <-ch:
+			return r.b, r.err, false
+		case <-g.C:
+			return nil, nil, true
+		}
 	case <-t.C:
 		return nil, nil, true
 	}
@@ -290,6 +310,7 @@ func runStream(c Case) []V {
 		for _, f := range frags {
 			recv.push(f)
 		}
+		recv.setFinal()
 		conn := newFakeConn(newMemStream(false), recv)
 		cfg, _ := quicConfig(c.Cfg, conn)
 		t, err := tquic.New(cfg)
@@ -297,11 +318,11 @@ func runStream(c Case) []V {
 			vs.add("new-error:"+where, "quic.New: %v", err)
 			return vs.list
 		}
-		read = func() ([]byte, error, bool) { return readTimeout(t.Read) }
+		read = func() ([]byte, error, bool) { return readTimeout(t.Read, recv.starved) }
 		rx = t.RxBytesCounterValue
 		finish = func() {
 			t.Close()
-			b, err, hung := readTimeout(t.Read)
+			b, err, hung := readTimeout(t.Read, nil)
 			if hung {
 				vs.add("read-after-close-hang:"+where, "Read blocks after Close")
 			} else if err == nil {
@@ -459,10 +480,11 @@ func runDgram(c Case) []V {
 		for _, d := range w.dgrams {
 			feeder.SendDatagram(d)
 		}
+		conn.setDgramFinal()
 		var u transport.UnreliableTransport
 		u, _ = t.AsUnreliable()
 		for i, m := range c.Seq {
-			got, err, hung := readTimeout(u.Read)
+			got, err, hung := readTimeout(u.Read, conn.dgStarved)
 			if hung {
 				vs.add("peer-read-hang:"+where, "message %d (%s) of [%s]: unreliable Read did not return", i, m, seqString(c.Seq))
 				return vs.list
